@@ -1,5 +1,4 @@
-(* C03, second fragment: blocks of plain rules whose action lists may END with pass or break, conditions
-   without negation.  The non-location actions performed are exactly those the documented semantics
+(* C03, second fragment: blocks of plain rules whose action lists may END with pass or break, any conditions.  The non-location actions performed are exactly those the documented semantics
    selects (first match wins, pass keeps the actions and continues, break abandons the block).
    Location entries (move / flag) are merged by matches_merge and are not part of this statement (F-21). *)
 From Coq Require Import List Bool Arith Lia.
@@ -120,31 +119,29 @@ Proof.
   - cbn [filter]. destruct (is_action (t_e t)); cbn [andb orb length Nat.eqb negb]; [reflexivity|exact IH].
 Qed.
 
-(* ---- conditions without negation only append pattern matches ------------------------------------------------ *)
-Fixpoint posc (c : cond) : bool :=
-  match c with CNeg _ => false | CAnd l r | COr l r => posc l && posc r | _ => true end.
-
-Lemma eval_cond_pos c env : posc c = true -> forall cur ins ml st,
+(* ---- a condition only appends pattern matches to the list and leaves the events alone ----------------------------- *)
+Lemma eval_cond_pos c env : forall cur ins ml st,
   exists pats, no_actions pats /\ eval (compile_cond c) env cur ins ml st = (ev_of (sem c env), ml ++ pats, st).
 Proof.
-  induction c as [a|a| |l IHl r IHr|l IHl r IHr|c IH]; intros Hp cur ins ml st; cbn [compile_cond eval sem posc] in *.
+  induction c as [a|a| |l IHl r IHr|l IHl r IHr|c IH]; intros cur ins ml st; cbn [compile_cond eval sem] in *.
   - destruct (env a); [exists [mkt (MPat a) cur ins]; split; [repeat constructor|reflexivity]|
                         exists []; split; [constructor|rewrite app_nil_r; reflexivity]].
   - exists []. split; [constructor|]. rewrite app_nil_r. destruct (env a); reflexivity.
   - exists []. split; [constructor|]. rewrite app_nil_r. reflexivity.
-  - apply andb_prop in Hp. destruct Hp as [Hl Hr].
-    destruct (IHl Hl cur ins ml st) as (p1 & Hn1 & E1). rewrite E1.
+  - destruct (IHl cur ins ml st) as (p1 & Hn1 & E1). rewrite E1.
     destruct (sem l env); cbn [ev_of andb].
-    + destruct (IHr Hr cur ins (ml ++ p1) st) as (p2 & Hn2 & E2). rewrite E2.
+    + destruct (IHr cur ins (ml ++ p1) st) as (p2 & Hn2 & E2). rewrite E2.
       exists (p1 ++ p2). split; [apply Forall_app; split; assumption|]. rewrite app_assoc. reflexivity.
     + exists p1. split; [exact Hn1|reflexivity].
-  - apply andb_prop in Hp. destruct Hp as [Hl Hr].
-    destruct (IHl Hl cur ins ml st) as (p1 & Hn1 & E1). rewrite E1.
+  - destruct (IHl cur ins ml st) as (p1 & Hn1 & E1). rewrite E1.
     destruct (sem l env); cbn [ev_of orb].
     + exists p1. split; [exact Hn1|reflexivity].
-    + destruct (IHr Hr cur ins (ml ++ p1) st) as (p2 & Hn2 & E2). rewrite E2.
+    + destruct (IHr cur ins (ml ++ p1) st) as (p2 & Hn2 & E2). rewrite E2.
       exists (p1 ++ p2). split; [apply Forall_app; split; assumption|]. rewrite app_assoc. reflexivity.
-  - discriminate Hp.
+  - destruct (IH cur ins ml st) as (p1 & Hn1 & E1). rewrite E1.
+    destruct (sem c env); cbn [ev_of negb].
+    + exists []. split; [constructor|]. rewrite app_nil_r. reflexivity.
+    + exists p1. split; [exact Hn1|reflexivity].
 Qed.
 
 Lemma no_actions_others pats : no_actions pats -> others pats = [] /\ (forall k, has k pats = false) /\ real pats = false.
@@ -209,7 +206,7 @@ Definition body_of (acts : list act) : list act := match marker acts with O => a
 
 Definition flat2_rule (r : rule) : bool :=
   match r with
-  | RActs c acts => posc c && negb (match acts with [] => true | _ => false end) && forallb plain_act (body_of acts)
+  | RActs c acts => negb (match acts with [] => true | _ => false end) && forallb plain_act (body_of acts)
   | RBlock _ _ => false
   end.
 
@@ -249,11 +246,11 @@ Lemma eval_flat2_rule c acts env cur ins ml st : flat2_rule (RActs c acts) = tru
               (real ml || negb (match body_of acts with [] => true | _ => false end) || Nat.eqb (marker acts) 2)
     else state_of ml.
 Proof.
-  intros Hf. cbn [flat2_rule] in Hf. apply andb_prop in Hf. destruct Hf as [Hf Hpl]. apply andb_prop in Hf. destruct Hf as [Hpos Hne].
+  intros Hf. cbn [flat2_rule] in Hf. apply andb_prop in Hf. destruct Hf as [Hne Hpl].
   assert (Hacts : acts <> []) by (destruct acts; [discriminate Hne|discriminate]).
   cbn [compile_rule]. destruct (compile_acts acts) as [e|] eqn:Ec; [|destruct acts; [contradiction|discriminate Ec]].
   cbn [eval].
-  destruct (eval_cond_pos c env Hpos cur ins (ml ++ [mkt MSentinel cur ins]) st) as (pats & Hn & Ecnd). rewrite Ecnd.
+  destruct (eval_cond_pos c env cur ins (ml ++ [mkt MSentinel cur ins]) st) as (pats & Hn & Ecnd). rewrite Ecnd.
   destruct (no_actions_others pats Hn) as (Po & Ph & Pr).
   assert (Hbase : state_of ((ml ++ [mkt MSentinel cur ins]) ++ pats) = state_of ml).
   { unfold state_of. rewrite !others_app, !has_app, !real_app, Po, !Ph, Pr. cbn. rewrite !app_nil_r, !orb_false_r. reflexivity. }
@@ -325,7 +322,7 @@ Proof.
   rewrite eval_chain, E1. cbn [fsem].
   assert (Hbody : marker acts = 0 -> body_of acts <> []).
   { intros Hm. unfold body_of. rewrite Hm. cbn [flat2_rule] in Hr. apply andb_prop in Hr. destruct Hr as [Hr _].
-    apply andb_prop in Hr. destruct Hr as [_ Hr]. destruct acts; [discriminate Hr|discriminate]. }
+    destruct acts; [discriminate Hr|discriminate]. }
   unfold Inv in HI. injection HI as I1 I2 I3 I4.
   destruct (sem c env).
   - rewrite I1, I2, I3, I4 in S1.
@@ -366,7 +363,7 @@ Lemma flat2_spec_facts c acts : flat2_rule (RActs c acts) = true ->
   plain_acts acts = body_of acts /\ ends_with k_pass acts = Nat.eqb (marker acts) 1 /\
   (ends_with k_pass acts = false -> existsb k_break acts = Nat.eqb (marker acts) 2).
 Proof.
-  intros Hf. cbn [flat2_rule] in Hf. apply andb_prop in Hf. destruct Hf as [Hf Hpl]. apply andb_prop in Hf. destruct Hf as [_ Hne].
+  intros Hf. cbn [flat2_rule] in Hf. apply andb_prop in Hf. destruct Hf as [Hne Hpl].
   assert (Hacts : acts <> []) by (destruct acts; [discriminate Hne|discriminate]).
   pose proof (acts_split acts Hacts) as Hs. destruct (plain_facts _ Hpl) as (B1 & B2 & _ & _).
   split; [|split].
@@ -424,7 +421,7 @@ Proof.
 Qed.
 
 (* First match wins, pass keeps the rule's actions and continues, break abandons the block: for every block of plain
-   rules (conditions without negation, action lists that may end with pass or break) the actions other than move and
+   rules (any conditions, action lists that may end with pass or break) the actions other than move and
    flag that mdsort performs are exactly those the documented semantics selects, in the same order, and something is
    done iff the documented semantics does something. *)
 Theorem flat_pass_break rs env : forallb flat2_rule rs = true ->
